@@ -5,6 +5,7 @@ import CifModel.Lemmas.ParseCBAllCont
 import CifModel.Lemmas.ParseCBPrune
 import CifModel.Lemmas.ParseCBFuel
 import CifModel.Lemmas.ParseCBCut
+import CifModel.Lemmas.ParseCBDup
 import CifModel.Spec.Traversal
 /-
   Property C15 — parse-time callbacks mirror the document and steer what is stored.
@@ -34,6 +35,13 @@ import CifModel.Spec.Traversal
       sub-trees removed AND cut at the stopping point (Spec/Traversal.lean part 4 says what stays of the construct in
       progress; containers open at the stop keep their packet-less loops), the return value = `cutResult`: the stopping
       answer if positive, else CIF_OK.  C15_cut_extends_pruned.
+  Duplicates under callbacks (model `parseCBD`, Model/ParseCBDup.lean: DUP_* diagnostics with an accepting error callback):
+    * C15_dup_all_continue_mirror — for every document in which block codes, frame codes and scalar data names may repeat
+      (any spelling that normalises alike; loop headers new to their container): with all-continue handlers the callbacks are
+      `dupEvents` and the store is `dupDenote` (Spec/TraversalDup.lean): a duplicate scalar gets its data-name callback and
+      the error callback but NO item handler and is not stored; a duplicate frame / block code gets the error callback and
+      the EXISTING frame / block is reopened — its handle goes to the start / end handlers, later names are checked against
+      and added to its content.
   Pinned variants of repaired defects: C15_cex_loop_start_pinned (F33).
   Not covered by theorems: layout (whitespace / comments) in the document-level theorems (`tokensOf` is layout-free; the
   token-sequence theorems above do cover layout), duplicate names (DUP_* diagnostics), error recovery (another property).
@@ -391,6 +399,21 @@ theorem C15_cut_extends_pruned (p : Prog) (hp : NoStop p) (d : Doc) (hw : wfDoc 
     denote (cutDoc p true d).kept = denoteP (prunedDoc p true d) := by
   rw [← (C15_stop_semantics_store p d hw).1, (C15_skip_semantics_rest p hp d hw).1]
 
+/-- **Duplicates under callbacks — all-continue handlers, accepting error callback.**  For every normalisation `norm` and every
+    document `d` in which data block codes, save frame codes and scalar data names may repeat (in any spellings that `norm`
+    identifies; `okDoc`: values well-formed, loops rectangular with headers that are new to their container and repeat nothing),
+    the parse of `tokensOf d` by the model with the duplicate diagnostics returns CIF_OK, delivers exactly the callbacks
+    `dupEvents norm d` — the document in document order with the recovery of every duplicate: scalar: data-name callback,
+    error callback CIF_DUP_ITEMNAME, no item handler; frame / block: error callback CIF_DUP_FRAMECODE / CIF_DUP_BLOCKCODE,
+    then start … end of the EXISTING frame / block (its handle, i.e. its code in its first spelling) — and stores
+    `dupDenote norm d`: the reopened containers hold the union of their parts, a duplicate scalar is dropped (the first value
+    stays).  (The error callback is recorded as `errEv code`, see Model/ParseCBDup.lean.) -/
+theorem C15_dup_all_continue_mirror (norm : Str → Str) (d : Doc) (hw : okDoc norm d = true) :
+    parseCBD allContP norm true (tokensOf d) = (dupEvents norm d, OK, dupDenote norm d) := by
+  obtain ⟨h1, h2, h3⟩ := docD_allCont norm d (fuelFor (tokensOf d)) hw (fuelFor_enough d)
+  unfold parseCBD
+  rw [h1, h2, h3]
+
 /-- with all-continue handlers nothing is bypassed: the pruned document stores what the document denotes -/
 theorem C15_unfiltered_is_denote (d : Doc) (hw : wfDoc d = true) : denoteP (prunedDoc allContP true d) = denote d := by
   have h1 := (C15_skip_semantics_rest allContP allContP_noStop d hw).1
@@ -497,5 +520,18 @@ example : (parseCB (C15_dev1 4 (-2)) true (tokensOf C15_loopDoc)).2.2.map (fun c
   decide +kernel
 -- END at an item inside a packet: the open packet is dropped, the loop keeps the packet recorded before; CIF_OK
 example : C15_cutOK (C15_dev1 9 END) C15_loopDoc = true := by decide +kernel
+
+-- duplicates under callbacks: a document with a repeated scalar (other spelling), a reopened frame and a reopened block
+def C15_lower (s : Str) : Str := s.map fun c => if 65 ≤ c ∧ c ≤ 90 then c + 32 else c
+def C15_dupDoc : Doc :=
+  [{ code := (a!"b"), body := [.item (a!"_s") (.chr false (a!"v")), .item (a!"_S") .na,
+      .frame (a!"f") [.item (a!"_t") .unk],
+      .frame (a!"F") [.item (a!"_t") .na, .item (a!"_u") .na]] },
+   { code := (a!"B"), body := [.item (a!"_s") .unk, .item (a!"_w") .na] }]
+example : okDoc C15_lower C15_dupDoc = true := by decide +kernel
+-- five error callbacks: _S, save_F, _t in the reopened frame, data_B, _s in the reopened block; one block, one frame stored
+example : ((dupEvents C15_lower C15_dupDoc).filter (fun e => match e with | .keyword (0 :: _) => true | _ => false)).length = 5
+    ∧ (dupDenote C15_lower C15_dupDoc).map (fun c => (c.code, c.frames.map (fun f => f.code))) = [((a!"b"), [(a!"f")])] := by
+  decide +kernel
 
 end CifModel
